@@ -11,7 +11,11 @@ import (
 	"github.com/resonatehq/resonate/internal/kernel/t_aio"
 	"github.com/resonatehq/resonate/internal/kernel/t_api"
 	"github.com/resonatehq/resonate/internal/verif/core"
+	"github.com/resonatehq/resonate/pkg/callback"
+	"github.com/resonatehq/resonate/pkg/lock"
 	"github.com/resonatehq/resonate/pkg/promise"
+	"github.com/resonatehq/resonate/pkg/schedule"
+	"github.com/resonatehq/resonate/pkg/task"
 	"github.com/robfig/cron/v3"
 )
 
@@ -901,6 +905,7 @@ func (j *judge) judgeResponse(r *ReqRec) {
 			}
 		}
 	}
+	j.respReal(r)
 	switch res.Kind {
 	case t_api.CreatePromise, t_api.CreatePromiseAndTask:
 		j.respCreate(r)
@@ -1442,4 +1447,113 @@ func JudgeSnapshot(sn core.Snapshot) []Violation {
 		}
 	}
 	return out
+}
+
+// ---------------------------------------------------------------------------
+// C02-R1: "no response reflects a state that never existed". Every lock, schedule, task or registration
+// record a response carries must equal the stored row in some committed state of the request's window
+// (promises: C01-I4). This part of C02 is judged against the database, not against a re-run of the same
+// code, so it also sees sequentially-wrong answers (a response describing values that were never stored).
+
+func optInt(r core.Row, col string, want *int64) bool {
+	if want == nil {
+		return r.Null(col)
+	}
+	return !r.Null(col) && r.I(col) == *want
+}
+
+func lockIsRow(l *lock.Lock, r core.Row) bool {
+	return r != nil && l.ExecutionId == r.S("execution_id") && l.ProcessId == r.S("process_id") && l.Ttl == r.I("ttl") && l.ExpiresAt == r.I("expires_at")
+}
+
+func scheduleIsRow(s *schedule.Schedule, r core.Row, projected bool) bool {
+	if r == nil {
+		return false
+	}
+	if projected {
+		// search returns a projection (id, cron, tags, run times, key, creation time) by design
+		return s.Cron == r.S("cron") && sameMap(s.Tags, r.JSONMap("tags")) && optInt(r, "last_run_time", s.LastRunTime) && s.NextRunTime == r.I("next_run_time") &&
+			sameKey(r, "idempotency_key", keyStr(s.IdempotencyKey)) && s.CreatedOn == r.I("created_on")
+	}
+	var ph map[string]string
+	_ = json.Unmarshal([]byte(r.S("promise_param_headers")), &ph)
+	return s.Description == r.S("description") && s.Cron == r.S("cron") && sameMap(s.Tags, r.JSONMap("tags")) && s.PromiseId == r.S("promise_id") &&
+		s.PromiseTimeout == r.I("promise_timeout") && string(s.PromiseParam.Data) == r.S("promise_param_data") && sameMap(s.PromiseParam.Headers, ph) &&
+		sameMap(s.PromiseTags, r.JSONMap("promise_tags")) && optInt(r, "last_run_time", s.LastRunTime) && s.NextRunTime == r.I("next_run_time") &&
+		sameKey(r, "idempotency_key", keyStr(s.IdempotencyKey)) && s.CreatedOn == r.I("created_on")
+}
+
+func taskIsRow(t *task.Task, r core.Row) bool {
+	if r == nil || int64(t.Counter) != r.I("counter") || t.Timeout != r.I("timeout") || !optInt(r, "created_on", t.CreatedOn) || !optInt(r, "completed_on", t.CompletedOn) {
+		return false
+	}
+	if t.ProcessId == nil {
+		return r.Null("process_id")
+	}
+	return !r.Null("process_id") && r.S("process_id") == *t.ProcessId
+}
+
+func callbackIsRow(c *callback.Callback, r core.Row) bool {
+	return r != nil && c.PromiseId == r.S("promise_id") && c.Timeout == r.I("timeout") && c.CreatedOn == r.I("created_on") // rootPromiseId is not filled in by the coroutine
+}
+
+func (j *judge) respReal(r *ReqRec) {
+	res := r.Res
+	real := func(what, tbl, key string, is func(core.Row) bool) {
+		if !j.existsSnap(r, func(s core.Snapshot) bool { return is(s[tbl][key]) }) {
+			last := j.s.Snaps[min(r.ResSnap, len(j.s.Snaps)-1)][tbl][key]
+			j.add("C02", "R1", "", "%s returned %s that was not stored in any committed state between its submission and its response (stored at the response: %s)", r, what, core.RowString(last))
+		}
+	}
+	lk := func(l *lock.Lock) {
+		if l != nil {
+			real(l.String(), "locks", l.ResourceId, func(row core.Row) bool { return lockIsRow(l, row) })
+		}
+	}
+	sc := func(s *schedule.Schedule) {
+		if s != nil {
+			real(s.String(), "schedules", s.Id, func(row core.Row) bool { return scheduleIsRow(s, row, res.Kind == t_api.SearchSchedules) })
+		}
+	}
+	tk := func(t *task.Task) {
+		if t != nil {
+			real(t.String(), "tasks", t.Id, func(row core.Row) bool { return taskIsRow(t, row) })
+		}
+	}
+	cb := func(c *callback.Callback) {
+		if c != nil {
+			// a registration may be converted into its task within the window; the record then lives on in the task row
+			if !j.existsSnap(r, func(s core.Snapshot) bool {
+				if row := s["callbacks"][c.Id]; row != nil {
+					return callbackIsRow(c, row)
+				}
+				t := s["tasks"][c.Id]
+				return t != nil && t.I("timeout") == c.Timeout
+			}) {
+				j.add("C02", "R1", "", "%s returned %s that was not stored in any committed state between its submission and its response", r, c)
+			}
+		}
+	}
+	switch res.Kind {
+	case t_api.AcquireLock:
+		lk(res.AcquireLock.Lock)
+	case t_api.CreateSchedule:
+		sc(res.CreateSchedule.Schedule)
+	case t_api.ReadSchedule:
+		sc(res.ReadSchedule.Schedule)
+	case t_api.SearchSchedules:
+		for _, s := range res.SearchSchedules.Schedules {
+			sc(s)
+		}
+	case t_api.ClaimTask:
+		tk(res.ClaimTask.Task)
+	case t_api.CompleteTask:
+		tk(res.CompleteTask.Task)
+	case t_api.CreatePromiseAndTask:
+		tk(res.CreatePromiseAndTask.Task)
+	case t_api.CreateCallback:
+		cb(res.CreateCallback.Callback)
+	case t_api.CreateSubscription:
+		cb(res.CreateSubscription.Callback)
+	}
 }
